@@ -446,7 +446,7 @@ func init() {
 	}
 }
 
-const ruleC11 = "rapid generates concurrent programs (sequential setup + 2-8 goroutines x 2-10 operations released from a barrier), each executed repeatedly on a fresh SDK v1 or v2 client in a binary built with the Go race detector (GORACE=halt_on_error), two thirds of them with a generated pause plan (the n-th passage through a verif yield point inside the table operations sleeps 1.5 ms while the client lock is held, which puts the mutex into hand-off mode so that a lock dropped and re-taken inside an operation is interleaved): 'data' programs over a tiny key space of counter items (PutItem, conditional PutItem attribute_not_exists, UpdateItem ADD 1, GetItem, DeleteItem ALL_OLD, conditional DeleteItem) and 'catalogue' programs (CreateTable / DeleteTable / DescribeTable on two names, N racing CreateTable on one fresh name) whose invoke/return-stamped histories, completed by final reads, are checked for linearizability with porcupine against the sequential counter-item / table-catalogue specification (this subsumes 'N concurrent ADD-1 yield N' and 'exactly one of N racing conditional puts succeeds', both also generated as dedicated programs); 'failure' programs (writers and readers on the counter items beside goroutines that switch the emulated failure on and off and read DescribeTable's item count inside the window), checked against the specification extended by the switch: once EmulateFailure has returned, no write may land until it is switched off; 'mixed' programs over every client method (CreateTable / DeleteTable / UpdateTable / DescribeTable, batch calls, TransactWriteItems, Query, Scan, ClearTable, failure toggling, data operations). Oracles: race detector report (the program being executed is recorded before it starts), runtime panic or fatal error, deadlock watchdog (a goroutine parked on a lock, condition or channel below a minidyn frame after 30 s), linearizability, SortedKeys/Data consistency afterwards. Non-trivial = program in which >= 2 goroutines touch the same key or the table catalogue; distinct = hash of the program."
+const ruleC11 = "rapid generates concurrent programs (sequential setup + 2-8 goroutines x 2-10 operations released from a barrier), each executed repeatedly on a fresh SDK v1 or v2 client in a binary built with the Go race detector (GORACE=halt_on_error), two thirds of them with a generated pause plan (the n-th passage through a verif yield point inside the table operations sleeps 1.5 ms while the client lock is held, which puts the mutex into hand-off mode so that a lock dropped and re-taken inside an operation is interleaved): 'data' programs over a tiny key space of counter items (PutItem, conditional PutItem attribute_not_exists, UpdateItem ADD 1, GetItem, DeleteItem ALL_OLD, conditional DeleteItem) and 'catalogue' programs (CreateTable / DeleteTable / DescribeTable on two names, N racing CreateTable on one fresh name) whose invoke/return-stamped histories, completed by final reads, are checked for linearizability with porcupine against the sequential counter-item / table-catalogue specification (this subsumes 'N concurrent ADD-1 yield N' and 'exactly one of N racing conditional puts succeeds', both also generated as dedicated programs); 'failure' programs (writers and readers on the counter items beside goroutines that switch the emulated failure on and off and read DescribeTable's item count inside the window), checked against the specification extended by the switch: once EmulateFailure has returned, no write may land until it is switched off; 'mixed' programs over every client method (CreateTable / DeleteTable / UpdateTable / DescribeTable, batch calls over one and two tables with and without ConsistentRead, TransactWriteItems, Query, Scan, ClearTable, failure toggling, GetNativeInterpreter / SetInterpreter / ActivateNativeInterpreter, data operations). Oracles: race detector report (the program being executed is recorded before it starts), runtime panic or fatal error, deadlock watchdog (a goroutine parked on a lock, condition or channel below a minidyn frame after 30 s), linearizability, SortedKeys/Data consistency afterwards. Non-trivial = program in which >= 2 goroutines touch the same key or the table catalogue; distinct = hash of the program."
 
 // c11Recorded: a failing program has been written to the replay file of this process.
 var c11Recorded bool
@@ -560,6 +560,8 @@ func TestC11(t *testing.T) {
 			for _, k := range keys {
 				c.Setup = append(c.Setup, model.Op{Kind: "Put", Table: "tbl", Item: model.Item{"pk": model.Str(k), "c": model.Num("1"), "g1": model.Str("g")}})
 			}
+			c.Setup = append(c.Setup, model.Op{Kind: "CreateTable", Schema: sTable("second", false)},
+				model.Op{Kind: "Put", Table: "second", Item: model.Item{"pk": model.Str("k1"), "c": model.Num("1")}})
 			ix := &model.IndexSchema{Name: "late1", Hash: "g2", Global: true}
 			for i := 0; i < nThreads; i++ {
 				n := rapid.IntRange(2, 8).Draw(rt, "opsPerThread")
@@ -588,10 +590,22 @@ func TestC11(t *testing.T) {
 						{Kind: "SetFailure", Failure: "internal_server"},
 						{Kind: "SetFailure", Failure: "none"},
 						{Kind: "DescribeTable", Table: "other"},
+						{Kind: "NativeGet"},
+						{Kind: "NativeGet"},
+						{Kind: "NativeSet"},
 					}).Draw(rt, "mixedOp")
+					if j == 0 && rapid.IntRange(0, 2).Draw(rt, "startWithNativeGet") == 1 {
+						op = model.Op{Kind: "NativeGet"} // several goroutines fetch the interpreter first
+					}
+					if rapid.IntRange(0, 39).Draw(rt, "activateNative") == 21 {
+						op = model.Op{Kind: "NativeActivate"} // from here on expressions need registered callbacks: most data calls fail, none may race
+					}
 					if c.Client == "v2" && rapid.IntRange(0, 5).Draw(rt, "batchGet") == 0 {
 						op = model.Op{Kind: "BatchGet", Consistent: rapid.Bool().Draw(rt, "consistentRead"),
 							Batch: []model.TableBatch{{Table: "tbl", Keys: []model.Item{c11Key("k1"), c11Key("k2"), c11Key("k3"), c11Key("k4"), c11Key("k5")}}}}
+						if rapid.Bool().Draw(rt, "twoTables") {
+							op.Batch = append(op.Batch, model.TableBatch{Table: "second", Keys: []model.Item{c11Key("k1"), c11Key("k2"), c11Key("k3")}})
+						}
 					}
 					ops = append(ops, op)
 				}
